@@ -260,7 +260,7 @@ func c1Taint(c *Ctx, rule string) {
 	if c.Anchor(rule, "zapcore.jsonEncoder.encodeReflected", er != nil) {
 		// by path exploration: a successful return hands out the null literal or the bytes of the encoder's own
 		// reflect buffer (the one held in, or just stored into, enc.reflectBuf on this path)
-		rn := er.Params[0].Name()
+		rn := PN(er.Params[0])
 		resolve := func(st *ConcState, v ssa.Value) ssa.Value {
 			for k := 0; k < 16 && v != nil; k++ {
 				if ct, ok := v.(*ssa.ChangeType); ok {
@@ -748,8 +748,8 @@ func c1Escaper(c *Ctx, rule string) {
 		return
 	}
 	body := header.Succs[0]
-	sName := fn.Params[3].Name()
-	bufName := fn.Params[2].Name()
+	sName := PN(fn.Params[3])
+	bufName := PN(fn.Params[2])
 	idxPhi := ""
 	for _, in := range header.Instrs {
 		if ph, ok := in.(*ssa.Phi); ok {
@@ -1188,7 +1188,7 @@ func c1Separators(c *Ctx, rule string) {
 	c.Check(len(commaSites) == 1 && commaSites[0] == "addElementSeparator", rule, sep.String(), "only-comma-writer", sep.Pos(), "',' is written only by addElementSeparator (sites: %v); an unconditional comma elsewhere yields '{,' or ',,'", commaSites)
 	// the no-separator byte set
 	var sw *ssa.BasicBlock
-	subjPrefix := "Bytes(" + sep.Params[0].Name() + ".buf)["
+	subjPrefix := "Bytes(" + PN(sep.Params[0]) + ".buf)["
 	for _, b := range sep.Blocks {
 		for _, in := range b.Instrs {
 			if u, ok := in.(*ssa.UnOp); ok && u.Op == token.MUL && strings.HasPrefix(Desc(u), subjPrefix) && sw == nil {
@@ -1235,7 +1235,7 @@ func c1Separators(c *Ctx, rule string) {
 		c.Check(ok, rule, sep.String(), "no-separator-byte-set", sep.Pos(), "evaluated over all 256 last-byte values: no separator after %q (must contain %q, may only add ' '); every other byte gets ',' (plus ' ' when spaced)", string(noSep), must)
 		// empty buffer: no separator
 		// by path exploration with the buffer's length fixed to 0: nothing is written and no byte is looked at
-		srn := sep.Params[0].Name()
+		srn := PN(sep.Params[0])
 		eseqs, etrunc := ConcPaths(sep, ConcCfg{
 			Conc: func(d string) (int64, bool) {
 				if d == "Len("+srn+".buf)" || d == "len(Bytes("+srn+".buf))" {
@@ -1266,7 +1266,7 @@ func c1Separators(c *Ctx, rule string) {
 		c.Check(okEmpty, rule, sep.String(), "empty-buffer", sep.Pos(), "an empty buffer gets no separator and no byte of it is read (paths with the length fixed to 0: %v)", eseqs)
 	}
 	// addKey order, explored for spaced on/off with helpers inlined: constant writes are expanded to their bytes
-	rcv := addKey.Params[0].Name()
+	rcv := PN(addKey.Params[0])
 	var shapes []string
 	okSeq := true
 	for _, spaced := range []int64{0, 1} {
@@ -1296,7 +1296,7 @@ func c1Separators(c *Ctx, rule string) {
 						case "addElementSeparator":
 							return "SEP"
 						case "safeAddString":
-							if st.Desc(Args(cl)[1]) == addKey.Params[1].Name() {
+							if st.Desc(Args(cl)[1]) == PN(addKey.Params[1]) {
 								return "KEY"
 							}
 							return "safeAddString(" + st.Desc(Args(cl)[1]) + ")"
@@ -1787,7 +1787,7 @@ func c1Errors(c *Ctx, rule string) {
 	if c.Anchor(rule, "zapcore.Field.AddTo", addTo != nil) {
 		name := addTo.String()
 		// the tests that turn a non-nil error into the "<key>Error" string field
-		keyD := addTo.Params[0].Name() + ".Key"
+		keyD := PN(addTo.Params[0]) + ".Key"
 		reportOf := func(iff *ssa.If) ssa.Value {
 			bo, ok := iff.Cond.(*ssa.BinOp)
 			if !ok || bo.Op != token.NEQ && bo.Op != token.EQL {
